@@ -83,9 +83,10 @@ def panic_message(site):
     return " ".join(msgs) if msgs else None
 
 
-def operand_key(b, o):
-    """stable description of an operand for keys: named local, field chain, or call name"""
-    from .nondet import receiver_fields, root_local
+def operand_key(b, o, depth=0):
+    """stable description of an operand for keys.  Names chosen by the programmer for locals and parameters are NOT used
+    (a rename must not change a key): a local is described by what defines it — a call, a field chain of a parameter,
+    a constant — and parameters by position (`self` excepted)"""
     o2 = b.resolve_copy(o)
     pl = op_place(o2)
     if pl is None:
@@ -95,16 +96,32 @@ def operand_key(b, o):
     if call is not None:
         return "call:" + short_callee(callee_name(call) or "?")
     l = pl["l"]
-    nm = b.local_name(l)
     fields = ".".join(e["n"] for e in pl["p"] if isinstance(e, dict) and "f" in e)
+
+    def pname(i):
+        return "self" if (b.local_name(i) == "self") else "arg%d" % i
+    if 1 <= l <= b.argc:
+        return "%s%s" % (pname(l), ("." + fields) if fields else "")
     rv = b.def_rvalue(o2)
     if rv is not None and rv["k"] in ("ref", "rawptr"):
         q = rv["p"]
-        nm = b.local_name(q["l"]) or ("arg%d" % q["l"] if 1 <= q["l"] <= b.argc else None)
-        fields = ".".join(e["n"] for e in q["p"] if isinstance(e, dict) and "f" in e)
-    if nm is None and 1 <= l <= b.argc:
-        nm = "arg%d" % l
-    return "%s%s" % (nm or "tmp", ("." + fields) if fields else "")
+        f2 = ".".join(e["n"] for e in q["p"] if isinstance(e, dict) and "f" in e)
+        if 1 <= q["l"] <= b.argc:
+            return "%s%s" % (pname(q["l"]), ("." + f2) if f2 else "")
+        if depth < 6:
+            inner = operand_key(b, {"cp": {"l": q["l"], "p": []}}, depth + 1)
+            return "%s%s" % (inner, ("." + f2) if f2 else "")
+    if rv is not None and rv["k"] in ("cast", "use") and depth < 6 and not pl["p"]:
+        return operand_key(b, rv["o"], depth + 1)
+    if rv is not None and rv["k"] == "bin" and depth < 6 and not pl["p"]:
+        if rv["op"].endswith("WithOverflow"):
+            return "tmp"
+        return "%s(%s,%s)" % (rv["op"], operand_key(b, rv["l"], depth + 1), operand_key(b, rv["r"], depth + 1))
+    if pl["p"] and depth < 6:
+        # a projection of a local: describe the base
+        base = operand_key(b, {"cp": {"l": l, "p": []}}, depth + 1)
+        return "%s%s" % (base, ("." + fields) if fields else "")
+    return "var" if b.local_name(l) else "tmp"
 
 
 # ------------------------------------------------------------------------------------------------------
@@ -1082,6 +1099,18 @@ def lower_bound_len(b, bb, ls):
         if call is not None and re.search(r"::is_empty$", callee_name(call) or "") and call["args"]:
             if operand_key(b, call["args"][0]) == ls[1] and taken == ("=", 0) and not mutated_between(b, ls[1], s_, bb):
                 best = 1
+        # `if let Some(..) = seq.last()` / first() / split_last() / get(k): on the Some arm the sequence is non-empty
+        rv = b.def_rvalue(on)
+        if rv is not None and rv["k"] == "discr" and not rv["p"]["p"]:
+            src = b.single_def(rv["p"]["l"])
+            if src and src[2] == "call" and src[3]["args"]:
+                m = re.search(r"::(first|last|split_first|split_last|first_mut|last_mut|get)$", callee_name(src[3]) or "")
+                some_taken = taken == ("=", 1) or (taken[0] == "!=" and 0 in taken[1])
+                if m and some_taken and operand_key(b, src[3]["args"][0]) == ls[1] and not mutated_between(b, ls[1], s_, bb):
+                    k = 1
+                    if m.group(1) == "get" and len(src[3]["args"]) > 1 and const_int(b, src[3]["args"][1]) is not None:
+                        k = const_int(b, src[3]["args"][1]) + 1
+                    best = max(best or 0, k)
     for op, l, r in facts_at(b, bb):
         for (x, y, flip) in ((l, r, False), (r, l, True)):
             lx = len_source(b, x)
